@@ -1739,6 +1739,7 @@ def _b_hasattr(I, args, kw):
     name = args[1].t.as_string()
     obj = unopt(I, args[0])
     if isinstance(obj, VRef):
+        name = I.falias(obj, name)
         k = I.st.fields.get(name)
         if isinstance(k, Dyn):
             return VBool(I.st.read_field(obj.t, name).present)
